@@ -96,9 +96,9 @@ def run_cli(workdir, argv, env_extra=None, timeout=120):
     err = p.stderr.decode('utf-8', 'replace')
     crash = None
     if 'Traceback (most recent call last)' in err or 'Traceback (most recent call last)' in out:
-        lines = [l for l in (err + out).strip().split('\n') if l.strip()]
-        last = lines[-1] if lines else ''
-        crash = last.split(':')[0].strip().split('.')[-1]
+        import re as _re
+        names = _re.findall(r'^([A-Za-z_][\w.]*(?:Error|Exception|Interrupt|Exit|Warning))\b', err + '\n' + out, _re.M)
+        crash = names[-1].split('.')[-1] if names else 'Traceback'
     res = MainResult()
     res.exit = p.returncode
     res.stdout, res.stderr = out, err
